@@ -16,6 +16,53 @@ def c12_sim(sc, io):
     return res
 
 
+def multi_order_scenario(rng, kind, n, completed):
+    """one package of n orders of one kind (transaction block); order index `completed` (or None) is fully matched inside the latency window"""
+    P = simgen.TICKS_BP
+    i = rng.randrange(8, 18)
+    t0 = 1_700_000_000_000
+    prices = [P[i + k] for k in range(n)]            # BACK orders resting above the best back price
+    def runner(trd):
+        return {"id": 1, "status": "ACTIVE", "adj": 1000, "atb": [[P[i - 2], 500]], "atl": [[P[i + n + 3], 500]], "trd": trd}
+    other = {"id": 2, "status": "ACTIVE", "adj": 2000, "atb": [[30000, 500]], "atl": [[31000, 500]], "trd": []}
+    size = 1000
+    tv = [[prices[completed], 4 * size]] if completed is not None else []      # traded volume at that price: enough to fill it (both sides counted)
+    ups = [{"pt": t0, "runners": [runner([]), other]}, {"pt": t0 + 200, "runners": [runner([]), other]}, {"pt": t0 + 1000, "runners": [runner([]), other]},
+           {"pt": t0 + 1100, "runners": [runner(tv), other]}, {"pt": t0 + 1400, "runners": [runner(tv), other]}, {"pt": t0 + 3000, "runners": [runner(tv), other]},
+           {"pt": t0 + 4000, "runners": [runner(tv), other]}]
+    for u in ups:
+        u.setdefault("status", "OPEN"); u.setdefault("version", 1)
+    names = list(range(1, n + 1))
+    acts = [{"s": 0, "m": 0, "u": 0, "acts": [["txn_begin"]] + [["place", nm, 1, "BACK", {"t": "L", "p": prices[k], "s": size, "pt": "LAPSE", "tif": None, "mf": None}, {"mv": None}] for k, nm in enumerate(names)] + [["txn_end"]]}]
+    if kind == "cancel":
+        reqs = [["cancel", nm, rng.choice([None, 300]), {}] for nm in names]
+    elif kind == "update":
+        reqs = [["update", nm, "PERSIST", {}] for nm in names]
+    else:
+        reqs = [["replace", nm, P[i + n + 1], {"mv": None}] for nm in names]
+    acts.append({"s": 0, "m": 0, "u": 2, "acts": [["txn_begin"]] + reqs + [["txn_end"]]})
+    return {"config": {"place_latency": 0.12, "cancel_latency": 0.17, "update_latency": 0.15, "replace_latency": 0.28, "isolation": True},
+            "clients": [{"bpe": True, "full_match": False, "limit": None, "min_val": False}], "strategies": [{"name": "s0", "client": 0}],
+            "markets": [{"id": "1.100000001", "event": "20000001", "group": False, "type": "WIN", "bsp": True, "persist": True, "winners": 1, "updates": ups}],
+            "script": acts, "_kind": kind, "_n": n, "_completed": completed}
+
+
+def multi_order_check(sc, io):
+    res = []
+    if io.get("error"):
+        if sc["_kind"] == "replace" and sc["_completed"] is not None and sc["_completed"] < sc["_n"] - 1 and "TypeError" in str(io["error"]):
+            res.append(("C12-sim-replace-zip-misaligned", "simulated replace package of %d orders, order %d fully matched inside the latency window: the instruction list skips the completed order, the handler zips it with the unfiltered order list, the next order's instruction is applied to the completed one (replacement of size 0) and the run aborts: %s" % (sc["_n"], sc["_completed"] + 1, str(io["error"])[:120]), {"error": io["error"]}))
+        else:
+            res.append(("C12-sim-run-aborted", "the run aborted: %s" % str(io["error"])[:200], {"error": io["error"]}))
+        return res
+    for o in io["final"]:
+        if o["status"] in ("Cancelling", "Updating", "Replacing"):
+            res.append(("C12-stranded-sim", "order %s is left %s after its %s package was executed" % (o["o"], o["status"], sc["_kind"]), {"order": o["o"], "log": o["log"]}))
+        if o["trade_status"] == "Pending":
+            res.append(("C12-trade-pending", "trade of %s left Pending" % o["o"], {"order": o["o"]}))
+    return res
+
+
 def main():
     ck = Check(PID)
     rng = random.Random(seed())
@@ -56,6 +103,23 @@ def main():
     # simulated execution: whole-loop scenarios with requests whose latency window contains fills / lapses / removals
     scs = [simgen.gen_scenario(rng, {"kinds": ["L"] * 9 + ["LOC", "MOC"], "p_manage": 0.7, "p_susp": 0.25, "p_remove": 0.08}) for _ in range(600 if thorough else 150)]
     simcheck.run_family(ck, "simulated_execution", scs, c12_sim, "C12", "sim")
+    # simulated execution, packages of 1-3 orders with one of them completed inside the latency window (implementation only: the
+    # simulation model has one order per package)
+    mscs = [multi_order_scenario(rng, kind, n, c) for kind in ("cancel", "update", "replace") for n in (1, 2, 3) for c in [None] + list(range(n))]
+    mouts = run_impl_parallel("simlib", [{"scenarios": [simgen.to_impl(x) for x in ch], "observe": "all"} for ch in chunked(mscs, 6)], timeout=1800)
+    mimpl = [r for o in mouts for r in o["out"]]
+    pf = []
+    for i, (sc, io) in enumerate(zip(mscs, mimpl)):
+        for key, desc, det in multi_order_check(sc, io):
+            pf.append((i, key, desc, det))
+    ck.family("simulated_multi_order_packages", len(mscs), len(mscs), [], sorted({i for i, *_ in pf}), exhaustive=True,
+              dist={"kinds": "cancel/update/replace x 1-3 orders x none or one order filled inside the latency window", "runs_aborted": sum(1 for io in mimpl if io.get("error")),
+                    "orders_filled_meanwhile": sum(1 for io in mimpl for o in io["final"] if o["status"] == "Execution complete" and o["matched"] > 0)})
+    seen = set()
+    for i, key, desc, det in pf:
+        if key not in seen:
+            seen.add(key)
+            ck.fail(key, desc, {"scenario": {k: v for k, v in mscs[i].items() if not k.startswith("_")}, "detail": det, "how": "harness/impl/simlib.py run_scenario on the real FlumineSimulation"})
     return ck.finish("live: fault enumeration (every assignment of SUCCESS/FAILURE/TIMEOUT to packages of 1-3 orders of each kind, BetfairError on the first 0-4 attempts, cancel reports reversed/missing, an order filled at the exchange and streamed between request and response) and random histories on the real BetfairExecution handlers with an exchange double; every step compared with the Coq live model; statuses/trade status/call counts/transaction counters/attribution checked after each response.  simulated: whole-loop scenarios compared with the simulation model; no order left in a transient status, no trade Pending")
 
 
